@@ -14,3 +14,4 @@ INVARIANT WaitsOnlyOnDeadConnection
 INVARIANT Accounted
 INVARIANT NothingPendingOnDeadConnection
 INVARIANT ClosedStaysClosed
+INVARIANT AllClosedAfterClose
